@@ -273,6 +273,8 @@ theorem httpProg_sim (s : Seg) : Sim (httpProg H s) (httpProg (H.pure g₀) s) :
       · exact .insert _ _ _ _ _ (.ret _)
       · exact .ret _
 
+end
+
 /-- **C07 for HTTP (full, repaired code).** For every trace, interleaving, connection and capacity,
 as long as nothing is evicted: the HTTP results attributed to connection `c` in the interleaved run
 are exactly those of analysing `c`'s segments alone with a fresh processor — for parsers whose
@@ -291,7 +293,33 @@ theorem http_isolation {γ Q P : Type} (H : HttpParams γ Q P) (hri : ResultInde
   rw [h1, h3]
   exact http_isolation_partial (H.pure g) (pure_stateless H g) c tr cap g (h2.1 hne)
 
-end
+
+/-- Parsers whose reports are functions of the bytes alone, whatever they do to their internal state
+(`updQ`/`updP`, e.g. overwrite the decoder object) — the shape of the parser models of C05
+(`Http1.parseRequest/Response`) and C16 (`H2.processorsParseRequest/Response`, fresh HPACK context per
+parse). -/
+def pureReports {γ Q P : Type} (req : Bytes → Option Q) (resp : Bytes → Option P)
+    (updQ updP : γ → Bytes → γ) (ttl maxHead : Nat) : HttpParams γ Q P where
+  parseReq := fun g b => (updQ g b, req b)
+  parseResp := fun g b => (updP g b, resp b)
+  ttlMs := ttl
+  maxHead := maxHead
+
+theorem resultIndep_of_pure {γ Q P : Type} (req : Bytes → Option Q) (resp : Bytes → Option P)
+    (updQ updP : γ → Bytes → γ) (ttl maxHead : Nat) :
+    ResultIndep (pureReports req resp updQ updP ttl maxHead) :=
+  ⟨fun _ _ _ => rfl, fun _ _ _ => rfl⟩
+
+/-- **C07 for HTTP with pure-report parsers**: isolation holds whatever the parsers do to the
+processor state. -/
+theorem http_isolation_pure {γ Q P : Type} (req : Bytes → Option Q) (resp : Bytes → Option P)
+    (updQ updP : γ → Bytes → γ) (ttl maxHead : Nat) (c : Ep × Ep) (tr : List Seg) (cap : Nat) (g : γ)
+    (hne : NoEvict (httpAnalyzer (pureReports req resp updQ updP ttl maxHead)) ({ cap := cap }, g) tr) :
+    ((httpAnalyzer (pureReports req resp updQ updP ttl maxHead)).runOuts ({ cap := cap }, g) tr).filter
+        (fun po => decide (httpConnOf po.1 = c)) =
+      (httpAnalyzer (pureReports req resp updQ updP ttl maxHead)).runOuts ({ cap := cap }, g)
+        (tr.filter (fun p => decide (httpConnOf p = c))) :=
+  http_isolation _ (resultIndep_of_pure req resp updQ updP ttl maxHead) c tr cap g hne
 
 /-- The unrepaired shared decoder (`leaky`: a parse result depends on what earlier parses left
 behind) does not satisfy the hypothesis — which is why it is a hypothesis. -/
